@@ -3,7 +3,7 @@
 From Coq.Strings Require Import Byte String.
 From Coq Require Import List Arith NArith Bool Lia.
 Import ListNotations.
-From V Require Import lib.Bytes model.Rpc spec.RpcWire.
+From V Require Import lib.Bytes model.Rpc spec.RpcWire spec.RpcCall.
 
 (* ====================================================================================== *)
 (*  Part 1.  framing                                                                      *)
@@ -485,7 +485,7 @@ Ltac inv_step H :=
   inversion H; subst; clear H; split_hyps.
 
 Ltac proj := unfold failed in *;
-             cbn [threads pending lock wire sent next_id run down torn senders with_threads
+             cbn [threads pending lock wire sent next_id run down torn senders closed with_threads
                   t_kind t_pc t_id t_payload t_chan t_ctx t_ret set_pc] in *.
 
 Lemma upd_same f t v : upd f t v t = v.
@@ -565,7 +565,8 @@ Proof.
   try (destruct (t_kind (threads s t)) eqn:K); norm; try assumption;
   try discriminate;
   try (intros Q; destruct (R Q); discriminate);
-  try (intros Q; inversion Q; subst; apply lookup_in in E0; apply P in E0; destruct E0 as [A B];
+  try (intros Q; inversion Q; subst;
+       match goal with HL : lookup _ _ = Some _ |- _ => apply lookup_in in HL; apply P in HL; destruct HL as [A B] end;
        split; [symmetry; exact B|apply reg_has_id in A; exact A]).
 Qed.
 
@@ -863,6 +864,92 @@ Proof.
     destruct (step s a) as [s1|] eqn:S; [|discriminate]. eapply IH; [eapply step_sinv; eassumption|exact H]. }
   intros s H. eapply G; [apply sinv_init|exact H].
 Qed.
+(* ---------- the end of the stream: what the observable history (the schedule) says about a state ---------- *)
+(* the responses the read loop took off the stream, in order, up to the end of the stream *)
+Fixpoint reads (tr : list action) : list resp :=
+  match tr with
+  | [] => []
+  | ARead r :: l => r :: reads l
+  | AEof :: _ => []
+  | _ :: l => reads l
+  end.
+Definition is_ctx (t : nat) (a : action) : bool := match a with ACtx x => Nat.eqb x t | _ => false end.
+Definition is_wfail (a : action) : bool := match a with AHeaderFail _ _ | ABodyFail _ _ => true | _ => false end.
+Definition is_eof (a : action) : bool := match a with AEof => true | _ => false end.
+Definition ctx_in (t : nat) (tr : list action) : bool := existsb (is_ctx t) tr.
+Definition wfail_in (tr : list action) : bool := existsb is_wfail tr.
+Definition eof_in (tr : list action) : bool := existsb is_eof tr.
+
+Lemma step_closed s a s' : step s a = Some s' -> closed s' = closed s || is_eof a.
+Proof.
+  intros H. destruct a; inv_step H; norm; cbn [is_eof]; rewrite ?orb_false_r; try reflexivity; try assumption.
+Qed.
+Lemma step_read_open s r s' : step s (ARead r) = Some s' -> closed s = false.
+Proof. intros H. inv_step H; reflexivity. Qed.
+Lemma step_ctx s a s' x : step s a = Some s' -> t_ctx (threads s' x) = t_ctx (threads s x) || is_ctx x a.
+Proof.
+  intros H. destruct a; inv_step H; norm; cbn [is_ctx]; rewrite ?orb_false_r;
+  try (cases_t x t); try (cases_t x n); norm; try (destruct (t_kind (threads s t)) eqn:K); norm;
+  rewrite ?orb_false_r, ?orb_true_r, ?Nat.eqb_refl; try reflexivity.
+  all: try (rewrite orb_true_r; reflexivity).
+  all: destruct (Nat.eqb_spec t x); [congruence|rewrite orb_false_r; reflexivity].
+Qed.
+Lemma step_down s a s' : step s a = Some s' -> down s' = down s || is_wfail a.
+Proof.
+  intros H. destruct a; inv_step H; norm; cbn [is_wfail]; rewrite ?orb_false_r, ?orb_true_r; reflexivity.
+Qed.
+
+Lemma exec_closed : forall tr s s', exec s tr = Some s' -> closed s' = closed s || eof_in tr.
+Proof.
+  induction tr as [|a l IH]; intros s s' H; cbn [exec] in H.
+  - inversion H; subst. cbn. rewrite orb_false_r. reflexivity.
+  - destruct (step s a) as [s1|] eqn:S; [|discriminate]. rewrite (IH _ _ H), (step_closed _ _ _ S).
+    unfold eof_in. cbn [existsb]. rewrite orb_assoc. reflexivity.
+Qed.
+Lemma exec_ctx t : forall tr s s', exec s tr = Some s' -> t_ctx (threads s' t) = t_ctx (threads s t) || ctx_in t tr.
+Proof.
+  induction tr as [|a l IH]; intros s s' H; cbn [exec] in H.
+  - inversion H; subst. cbn. rewrite orb_false_r. reflexivity.
+  - destruct (step s a) as [s1|] eqn:S; [|discriminate]. rewrite (IH _ _ H), (step_ctx _ _ _ t S).
+    unfold ctx_in. cbn [existsb]. rewrite orb_assoc. reflexivity.
+Qed.
+Lemma exec_down : forall tr s s', exec s tr = Some s' -> down s' = down s || wfail_in tr.
+Proof.
+  induction tr as [|a l IH]; intros s s' H; cbn [exec] in H.
+  - inversion H; subst. cbn. rewrite orb_false_r. reflexivity.
+  - destruct (step s a) as [s1|] eqn:S; [|discriminate]. rewrite (IH _ _ H), (step_down _ _ _ S).
+    unfold wfail_in. cbn [existsb]. rewrite orb_assoc. reflexivity.
+Qed.
+(* once the loop has returned nothing is read any more *)
+Lemma exec_closed_no_read : forall tr s s' r, exec s tr = Some s' -> closed s = true -> ~ In (ARead r) tr.
+Proof.
+  induction tr as [|a l IH]; intros s s' r H C; cbn [exec] in H; [intros []|].
+  destruct (step s a) as [s1|] eqn:S; [|discriminate]. intros [Q|Q].
+  - subst a. apply step_read_open in S. congruence.
+  - refine (IH _ _ r H _ Q). rewrite (step_closed _ _ _ S), C. reflexivity.
+Qed.
+Lemma exec_closed_no_eof : forall tr s s', exec s tr = Some s' -> closed s = true -> ~ In AEof tr.
+Proof.
+  induction tr as [|a l IH]; intros s s' H C; cbn [exec] in H; [intros []|].
+  destruct (step s a) as [s1|] eqn:S; [|discriminate]. intros [Q|Q].
+  - subst a. cbn [step] in S. destruct (run s); [discriminate|]. rewrite C in S. discriminate.
+  - refine (IH _ _ H _ Q). rewrite (step_closed _ _ _ S), C. reflexivity.
+Qed.
+(* every response read along a schedule was read before the end of the stream *)
+Lemma exec_reads : forall tr s s' r, exec s tr = Some s' -> In (ARead r) tr -> In r (reads tr).
+Proof.
+  induction tr as [|a l IH]; intros s s' r H Q; cbn [exec] in H; [destruct Q|].
+  destruct (step s a) as [s1|] eqn:S; [|discriminate].
+  assert (T : In (ARead r) l -> In r (reads l)) by (apply (IH _ _ r H)).
+  destruct Q as [Q|Q]; [subst a; left; reflexivity|].
+  destruct a; cbn [reads]; try (apply T; exact Q); [right; apply T; exact Q|].
+  exfalso. refine (exec_closed_no_read _ _ _ r H _ Q). rewrite (step_closed _ _ _ S). apply orb_true_r.
+Qed.
+Lemma init_flags prog t : t_ctx (threads (init prog) t) = false /\ down (init prog) = false /\ closed (init prog) = false.
+Proof.
+  cbn [init threads down closed]. split; [|split; reflexivity].
+  destruct (nth_mk prog t) as [->|[[k p] ->]]; reflexivity.
+Qed.
 End Conn.
 
 (* ====================================================================================== *)
@@ -923,7 +1010,7 @@ Qed.
 
 Theorem call_gets_own_response prog tr s : exec (init prog) tr = Some s ->
   (forall t, is_call (threads s t) = true -> t_pc (threads s t) = PDone ->
-     (exists r, t_ret (threads s t) = Some (Got r) /\ fst r = t_id (threads s t) /\ In (ARead r) tr)
+     (exists r, t_ret (threads s t) = Some (Got r) /\ fst r = t_id (threads s t) /\ In (ARead r) tr /\ In r (reads tr))
      \/ (t_ret (threads s t) = Some Cancelled /\ t_ctx (threads s t) = true)
      \/ (t_ret (threads s t) = Some WriteFailed /\ t_ctx (threads s t) = true)
      \/ (t_ret (threads s t) = Some TransportErr /\ down s = true))
@@ -940,11 +1027,91 @@ Proof.
     pose proof (i_done s I t C) as D. rewrite P in D. specialize (D eq_refl).
     pose proof (i_ret s I t) as R.
     destruct (t_ret (threads s t)) as [[r| | | |]|] eqn:E; try discriminate D.
-    + left. exists r. split; [reflexivity|]. split; [apply R|apply (FW t r E)].
+    + left. exists r. split; [reflexivity|]. split; [apply R|]. split; [apply (FW t r E)|].
+      eapply exec_reads; [exact H|apply (FW t r E)].
     + right. left. split; [reflexivity|exact R].
     + right. right. left. split; [reflexivity|exact R].
     + right. right. right. split; [reflexivity|exact R].
   - intros t1 t2 C1 C2 P1 P2 E. apply (i_uniq s I); try exact E; unfold has_id; rewrite ?C1, ?C2, ?P1, ?P2; reflexivity.
+Qed.
+
+(* ---------- the end of the stream ---------- *)
+Definition outcome_of (r : result) : outcome :=
+  match r with
+  | Got r => OGot (fst r) (snd r)
+  | Cancelled | WriteFailed => OCancelled
+  | TransportErr => OWriteError
+  | Sent => OOther
+  end.
+(* what the schedule shows about call t with identifier id *)
+Definition facts (tr : list action) (t id : nat) : call_facts :=
+  mkFacts id (reads tr) (ctx_in t tr) (wfail_in tr) (eof_in tr).
+
+Lemma state_flags prog tr s : exec (init prog) tr = Some s ->
+  (forall t, t_ctx (threads s t) = ctx_in t tr) /\ down s = wfail_in tr /\ closed s = eof_in tr.
+Proof.
+  intros H. split; [|split].
+  - intros t. rewrite (exec_ctx t _ _ _ H). destruct (init_flags prog t) as [-> _]. reflexivity.
+  - rewrite (exec_down _ _ _ H). destruct (init_flags prog 0) as [_ [-> _]]. reflexivity.
+  - rewrite (exec_closed _ _ _ H). destruct (init_flags prog 0) as [_ [_ ->]]. reflexivity.
+Qed.
+
+Lemma in_reads_existsb r l : In r l -> existsb (fun q : resp => Nat.eqb (fst q) (fst r) && Nat.eqb (snd q) (snd r)) l = true.
+Proof.
+  intros H. apply existsb_exists. exists r. split; [exact H|]. rewrite !Nat.eqb_refl. reflexivity.
+Qed.
+
+Theorem calls_meet_spec prog tr s : exec (init prog) tr = Some s ->
+  forall t, is_call (threads s t) = true -> t_pc (threads s t) = PDone ->
+    exists r, t_ret (threads s t) = Some r /\
+              call_ok (facts tr t (t_id (threads s t))) (outcome_of r) = true.
+Proof.
+  intros H t C P. destruct (state_flags prog tr s H) as [FC [FD _]].
+  destruct (call_gets_own_response prog tr s H) as [G _].
+  destruct (G t C P) as [[r [E [I [_ R]]]]|[[E X]|[[E X]|[E X]]]]; rewrite E; eexists; (split; [reflexivity|]);
+    cbn [outcome_of call_ok facts f_id f_read f_cancelled f_wfailed].
+  - rewrite I, Nat.eqb_refl. cbn [andb]. rewrite <- I. apply in_reads_existsb. exact R.
+  - rewrite <- FC. exact X.
+  - rewrite <- FC. exact X.
+  - rewrite <- FD. exact X.
+Qed.
+
+(* a call whose context was never cancelled, on a connection whose Writes never failed: once it has returned
+   it has returned the response carrying its id, read before the end of the stream - wherever the end of the
+   stream falls in the schedule *)
+Theorem uncancelled_call_returns_response prog tr s : exec (init prog) tr = Some s ->
+  forall t, is_call (threads s t) = true -> t_pc (threads s t) = PDone ->
+    ctx_in t tr = false -> wfail_in tr = false ->
+    exists r, t_ret (threads s t) = Some (Got r) /\ fst r = t_id (threads s t) /\ In r (reads tr).
+Proof.
+  intros H t C P NC NW. destruct (state_flags prog tr s H) as [FC [FD _]].
+  destruct (call_gets_own_response prog tr s H) as [G _].
+  destruct (G t C P) as [[r [E [I [_ R]]]]|[[E X]|[[E X]|[E X]]]].
+  - exists r. repeat split; assumption.
+  - rewrite FC, NC in X. discriminate X.
+  - rewrite FC, NC in X. discriminate X.
+  - rewrite FD, NW in X. discriminate X.
+Qed.
+
+Lemma exec_app : forall tr1 tr2 s s', exec s (tr1 ++ tr2) = Some s' ->
+  exists s1, exec s tr1 = Some s1 /\ exec s1 tr2 = Some s'.
+Proof.
+  induction tr1 as [|a l IH]; intros tr2 s s' H; cbn [app exec] in *; [exists s; split; [reflexivity|exact H]|].
+  destruct (step s a) as [s1|]; [|discriminate]. apply IH. exact H.
+Qed.
+
+(* after the end of the stream nothing is read, and the end comes once *)
+Theorem nothing_read_after_end prog tr1 tr2 s : exec (init prog) (tr1 ++ AEof :: tr2) = Some s ->
+  closed s = true /\ (forall r, ~ In (ARead r) tr2) /\ ~ In AEof tr2 /\ eof_in tr1 = false.
+Proof.
+  intros H. destruct (exec_app _ _ _ _ H) as [s1 [H1 H2]]. cbn [exec] in H2.
+  destruct (step s1 AEof) as [s2|] eqn:S; [|discriminate].
+  assert (C2 : closed s2 = true) by (rewrite (step_closed _ _ _ S); apply orb_true_r).
+  split; [rewrite (exec_closed _ _ _ H2), C2; reflexivity|]. split; [|split].
+  - intros r. eapply exec_closed_no_read; eassumption.
+  - eapply exec_closed_no_eof; eassumption.
+  - cbn [step] in S. destruct (run s1); [discriminate|]. destruct (closed s1) eqn:C1; [discriminate|].
+    rewrite (exec_closed _ _ _ H1) in C1. destruct (init_flags prog 0) as [_ [_ C0]]. rewrite C0 in C1. exact C1.
 Qed.
 
 Theorem pending_empty_at_quiescence prog tr s : exec (init prog) tr = Some s -> quiescent s ->
